@@ -1,7 +1,7 @@
 (* Driver.v -- textual report of the model on one program; evaluated either by
    vm_compute inside coqc (kernel route) or by the extracted OCaml (bulk route). *)
 From Coq Require Import ZArith List Bool String.
-From PS.model Require Import Smt Enc Prog.
+From PS.model Require Import Smt Enc Ind Prog.
 Import ListNotations.
 Open Scope string_scope.
 
@@ -22,10 +22,11 @@ Fixpoint dedup {A} (eqb : A -> A -> bool) (l : list A) (seen : list A) : list A 
 Definition decls (fs : list form) : list string :=
   map show_decl_i (dedup ivar_beq (flat_map fiv fs) [])
   ++ map show_decl_b (dedup bvar_beq (flat_map fbv fs) [])
-  ++ map show_decl_a (dedup Nat.eqb (flat_map farr fs) []).
+  ++ map show_decl_a (dedup Nat.eqb (flat_map farr fs) [])
+  ++ map show_decl_f (dedup fname_beq (flat_map ffn fs) []).
 
 Definition report_state (st : pstate) (extra : list (string * form)) : list string :=
-  let a := initialize st in
+  let a := su_asserts (solver_setup default_cfg st) in
   decls (map snd a ++ map snd extra)
   ++ map (fun '(g, f) => "A " ++ show_tag g ++ " " ++ show_f f) a
   ++ map (fun '(k, f) => "S " ++ k ++ " " ++ show_f f) extra.
@@ -46,7 +47,7 @@ Fixpoint lookup {V} (l : list (string * V)) (k : string) (d : V) : V :=
 Definition env_of (ivals : list (string * Z)) (bvals : list (string * bool)) : env :=
   {| iv := fun x => lookup ivals (show_ivar x) 0%Z;
      bv := fun b => lookup bvals (show_bvar b) false;
-     av := fun _ _ => 0%Z |}.
+     av := fun _ _ => 0%Z; fv := fun _ => [] |}.
 Inductive confirm := CfNoRun | CfNoClause | CfResult (clause_holds model_admits : bool).
 Definition confirm_clause (spec : pstate -> list (string * form)) (ops : list op)
            (key : string) (e : env) : confirm :=
